@@ -59,7 +59,35 @@ RECIPES = [
     ("C08", "break", ["C08-R7"], UNC, "            if order == 0:\n                A = 1.5 * A\n                Ap = 2.0 * Ap\n",
      "            if order == 0:\n                A *= 1.5\n                Ap *= 2.0\n",
      "complex generator scales the rigid-body coefficients of the solver in place (every later generator scales them again)"),
+    ("C08", "break", ["C08-R3"], UNC, "                    if j < 0:\n                        # add to previous soln\n                        Force[:, i] += F1\n                        drf[:, i] += ikrf * F1[rf]\n                    else:\n                        i = j\n                        Force[:, i] = F1\n                        # rb + el:\n                        F0k = Force[kdof, i - 1]\n                        di = D[:, i - 1]\n                        vi = V[:, i - 1]\n                        D[:, i] = F * di",
+     "                    if j < 0:\n                        # add to previous soln\n                        Force[:, j] += F1\n                        drf[:, i] += ikrf * F1[rf]\n                    else:\n                        i = j\n                        Force[:, i] = F1\n                        # rb + el:\n                        F0k = Force[kdof, i - 1]\n                        di = D[:, i - 1]\n                        vi = V[:, i - 1]\n                        D[:, i] = F * di",
+     "add-on accumulates the force into column j (negative) instead of the step solved last"),
+    ("C08", "break", ["C08-R1"], UNC, "        nt = d.shape[1]\n        order = self.order\n", "        nt = d.shape[1] - 1\n        order = self.order\n",
+     "complex generator parks at the priming yield when there are two time steps (the first send is swallowed)"),
+    ("C08", "break", ["C08-R2c"], UNC, "            else:\n                rbforce = F0[rb]\n            a[rb, 0] = rbforce\n",
+     "            else:\n                rbforce = F0[rb]\n            a[rb, 0] = 0.0\n",
+     "complex generator: rigid-body acceleration of step 0 not initialised from F0"),
+    ("C08", "break", ["C08-R3c"], UNC, "        flex = self._add_rf_flex(flex, phi, velo, unc)\n        return flex\n\n    def get_su_eig",
+     "        return flex\n\n    def get_su_eig", "_get_f2x_complex_unc drops the residual-flexibility part"),
+    ("C08", "break", ["C08-R3c"], UNC, "                    flexr = la.lu_solve(imrb, flexr, check_finite=False)\n", "                    flexr = la.lu_solve(imrb, flexr.T, trans=1, check_finite=False).T\n",
+     "_get_f2x_complex_unc: rigid-body mass inverse applied from the right"),
+    ("C08", "break", ["C08-R5"], SE2, "        d, v, a, force = self._init_dva_part(nt, F0, d0, v0, static_ic)\n        self._d, self._v, self._a, self._force = d, v, a, force\n        generator = self._solve_se2_generator",
+     "        d, v, a, force = self._init_dva_part(nt, F0, v0, d0, static_ic)\n        self._d, self._v, self._a, self._force = d, v, a, force\n        generator = self._solve_se2_generator",
+     "SolveExp2.generator hands d0 and v0 to _init_dva_part the wrong way round"),
+    ("C08", "break", ["C08-R5"], "pyyeti/ode/solvecdf.py", "        return super().generator(nt, F0, d0, v0, static_ic)\n", "        return super().generator(nt, F0, v0, d0, static_ic)\n",
+     "SolveCDF.generator forwards d0 and v0 exchanged"),
+    ("C08", "break", ["C08-R5"], BASE, "        self._init_dv(d, v, d0, v0, F0, static_ic)\n        if self.rfsize:\n            if self.unc:\n                d[self.rf, 0] = self.ikrf.ravel()",
+     "        self._init_dv(v, d, d0, v0, F0, static_ic)\n        if self.rfsize:\n            if self.unc:\n                d[self.rf, 0] = self.ikrf.ravel()",
+     "_init_dva_part stores the initial displacement into the velocity array"),
+    ("C08", "break", ["C08-R6"], BASE, "                flexrf = ikrf.ravel()[:, None] * phirf.T\n", "                flexrf = ikrf.ravel()[None, :] * phirf.T\n",
+     "_add_rf_flex scales the columns instead of the rows (inserted axis on the wrong side)"),
+    ("C08", "break", ["C08-R2", "C08-R3"], UNC, "        Fp = pc.Fp\n        Gp = pc.Gp\n        Ap = pc.Ap\n        Bp = pc.Bp\n\n        if self.order == 1:\n            if self.rfsize:\n                # rigid-body and elastic equations:\n                D = d[kdof]\n                V = v[kdof]\n                # resflex",
+     "        Gp = pc.Gp\n        Ap = pc.Ap\n        Bp = pc.Bp\n\n        if self.order == 1:\n            if self.rfsize:\n                # rigid-body and elastic equations:\n                D = d[kdof]\n                V = v[kdof]\n                # resflex",
+     "real generator: coefficient local never bound (NameError on the first positive send)"),
     # ------------------------------------------------------------------ behaviour-preserving
+    ("C08", "neutral", [], UNC, "                        i = j\n                        Force[:, i] = F1\n                        # rb + el:\n                        F0k = Force[kdof, i - 1]\n                        F1k = F1[kdof]\n                        di = D[:, i - 1]\n                        vi = V[:, i - 1]\n                        D[:, i] = F * di",
+     "                        i = int(j)\n                        Force[:, j] = F1\n                        # rb + el:\n                        F0k = Force[kdof, j - 1]\n                        F1k = F1[kdof]\n                        di = D[:, i - 1]\n                        vi = V[:, j - 1]\n                        D[:, i] = F * di",
+     "positive send addresses the columns through the sent index itself"),
     ("C08", "neutral", [], UNC, _CDF_STEP,
      "                        if i_last != i - 1:\n                            dmpfrc0 = bo @ vi\n                        else:\n                            dmpfrc0 = dmpfrc1\n"
      "                        i_last = i\n                        _f0 = F0k - dmpfrc0\n",
